@@ -730,6 +730,18 @@ def check_noisy_runs(ctx, cirq, n):
     corpus.append((cirq.Circuit(cirq.Moment(cirq.measure(a, key='a')), cirq.Moment(cirq.measure(a, b, key='b'))), cirq.bit_flip(0.25), False))
     corpus.append((cirq.Circuit(cirq.Moment(cirq.measure(a, b, key='a')), cirq.Moment(cirq.measure(b, c, key='b')), cirq.Moment(cirq.measure(a, key='c'))), cirq.X**0.5, False))
     corpus.append((cirq.Circuit(cirq.Moment(cirq.measure(a, key='a'), cirq.measure(b, key='b')), cirq.Moment(cirq.measure(b, key='a'))), cirq.bit_flip(0.25), True))
+    # noise on several qubits at once (a unitary coupling added after every moment): what touches a qubit that is still to be measured counts
+
+    class CoupleAfterEveryMoment(cirq.NoiseModel):
+        def __init__(self, gate, pair):
+            self.gate, self.pair = gate, pair
+
+        def noisy_moment(self, moment, system_qubits):
+            return [moment, cirq.Moment(self.gate.on(*self.pair))]
+
+    corpus.append((cirq.Circuit(cirq.Moment(cirq.X(a)), cirq.Moment(cirq.measure(a, key='a')), cirq.Moment(cirq.measure(b, key='b'))), CoupleAfterEveryMoment(cirq.CNOT, (a, b)), False))
+    corpus.append((cirq.Circuit(cirq.Moment(cirq.H(a)), cirq.Moment(cirq.measure(b, key='a')), cirq.Moment(cirq.measure(a, c, key='b'))), CoupleAfterEveryMoment(cirq.CNOT, (b, c)), False))
+    corpus.append((cirq.Circuit(cirq.Moment(cirq.X(a) ** 0.5), cirq.Moment(cirq.measure(a, key='a')), cirq.Moment(cirq.measure(c, key='c')), cirq.Moment(cirq.measure(b, key='b'))), CoupleAfterEveryMoment(cirq.CZ ** 0.5, (a, b)), False))
     for it in range(n + len(corpus)):
         if it < len(corpus):
             circuit, ch, prepend = corpus[it]
@@ -769,7 +781,7 @@ def check_noisy_runs(ctx, cirq, n):
                 ch = cirq.X  # the reference semantics branches on every Kraus operator of every inserted channel: keep that enumerable
             prepend = rng.random() < 0.4
         qs = sorted(circuit.all_qubits())
-        model = cirq.ConstantQubitNoiseModel(ch, prepend=prepend)
+        model = ch if isinstance(ch, cirq.NoiseModel) else cirq.ConstantQubitNoiseModel(ch, prepend=prepend)
         noisy = cirq.Circuit(model.noisy_moments(circuit, qs))
         dims = [2] * len(qs)
         init = [0j] * (2 ** len(qs))
@@ -779,7 +791,7 @@ def check_noisy_runs(ctx, cirq, n):
         terminal = circuit.are_all_measurements_terminal()
         ctx.case(['noisy-run', repr(circuit), repr(ch), prepend], len(want) >= 2)
         sims = {'DensityMatrixSimulator': lambda p: cirq.DensityMatrixSimulator(noise=model, seed=p, dtype=np.complex128)}
-        if cirq.has_unitary(ch) or len(list(noisy.all_operations())) <= 12:
+        if isinstance(ch, cirq.NoiseModel) or cirq.has_unitary(ch) or len(list(noisy.all_operations())) <= 12:
             sims['Simulator'] = lambda p: cirq.Simulator(noise=model, seed=p, dtype=np.complex128)
         for sname, mk in sims.items():
             def once(prng, mk=mk):
